@@ -102,8 +102,6 @@ fn c13_tree_new_bounded_8() {
     kani::assume(e <= 3);
     let leaves = 1u32 << e;
     let t = SecretTree::<u32>::new(leaves, Zeroizing::new(enc.clone()));
-    kani::cover!(leaves == 8);
-    kani::cover!(leaves == 1);
     assert!(t.leaf_count == leaves);
     assert!(model_len() == 1);
     // root of the left-balanced tree with `leaves` leaves: 2^k - 1 with 2^k = leaves
@@ -134,8 +132,6 @@ fn c13_consume_node_bounded_8() {
 
         let r = t.consume_node(&p, &index);
         assert!(r.is_ok());
-        kani::cover!(index == 7);
-        kani::cover!(index == 13);
 
         let k = spec_level(index);
         let left = index - (1u32 << (k - 1));
@@ -169,8 +165,6 @@ fn c13_ratchet_new() {
     let r = SecretKeyRatchet::new(&p, &secret, kt);
     assert!(r.is_ok());
     let r = r.ok().unwrap();
-    kani::cover!(handshake);
-    kani::cover!(!handshake);
     let label: &[u8] = if handshake { b"handshake" } else { b"application" };
     assert!(p.calls() == 1);
     assert!(p.is(0, Op::Expand, &secret, &rfc_kdf_label(NH as u16, label, &[]), NH));
@@ -188,7 +182,6 @@ fn c13_ratchet_new_provider_error() {
     let secret = any_exact::<NH>();
     let kt = if kani::any() { KeyType::Handshake } else { KeyType::Application };
     let r = SecretKeyRatchet::new(&p, &secret, kt);
-    kani::cover!(true);
     assert!(is_provider_error(&r));
     core::mem::forget(r);
 }
@@ -219,7 +212,6 @@ fn c13_ratchet_derive_secret_bounded_4() {
         let r = rt.derive_secret(&p, label, len);
         assert!(r.is_ok());
         let o = r.ok().unwrap();
-        kani::cover!(generation == 0x0102_0304 && len == 0xffff && label.len() == 4);
 
         let mut ctx = Vec::new();
         rfc_u32(&mut ctx, generation);
@@ -243,7 +235,6 @@ fn c13_ratchet_derive_secret_provider_error() {
     let secret = any_exact::<NH>();
     let rt = ratchet(&secret, kani::any());
     let r = rt.derive_secret(&p, b"key", NK);
-    kani::cover!(true);
     assert!(is_provider_error(&r));
     core::mem::forget(r);
 }
@@ -264,7 +255,6 @@ fn c13_ratchet_next_message_key() {
     let r = rt.next_message_key(&p);
     assert!(r.is_ok());
     let k = r.ok().unwrap();
-    kani::cover!(j == 0xfffe_fdfc);
 
     let mut ctx = Vec::new();
     rfc_u32(&mut ctx, j);
@@ -294,7 +284,6 @@ fn c13_ratchet_next_message_key_provider_error() {
     kani::assume(j < u32::MAX);
     let mut rt = ratchet(&secret, j);
     let r = rt.next_message_key(&p);
-    kani::cover!(at == 2);
     assert!(is_provider_error(&r));
     assert!(p.calls() == at + 1);
     core::mem::forget(r);
@@ -327,8 +316,6 @@ fn first_message_key_case(enc: &[u8], leaf: u32, handshake: bool) {
     let r = t.next_message_key(&p, 2 * leaf, kt);
     assert!(r.is_ok());
     let k = r.ok().unwrap();
-    kani::cover!(leaf == 3 && handshake);
-    kani::cover!(leaf == 0 && !handshake);
 
     // 4 leaves: nodes 0..=6, root 3, its children 1 and 5, leaves 0 2 4 6
     let left_l = rfc_kdf_label(NH as u16, b"tree", b"left");
